@@ -149,7 +149,9 @@ def state_of(r):
             sens.append((sid, str(getattr(s, 'schedule_type', None)), getattr(s, 'power', None), getattr(s, 'on_off', None)))
     regs = tuple(sorted(dev.rf.regs.items())) if hasattr(dev, 'rf') else ()
     blob = bytes(getattr(dev, 'settings', b''))
-    return h((tuple(sorted((k, v) for k, v in vars(inv).items() if k.startswith('_has'))), tuple(sorted(inv._settings)),
+    from .explore import obj_state
+    return h((obj_state(inv, r.loop.time()), obj_state(inv._protocol, r.loop.time()) if hasattr(inv, '_protocol') else None,
+              tuple(sorted((k, v) for k, v in vars(inv).items() if k.startswith('_has'))), tuple(sorted(inv._settings)),
               len(inv.sensors()), tuple(sens), regs, blob, tuple(getattr(dev, 'refused', ())),
               getattr(inv._protocol, '_retry', 0), inv._consecutive_failures_count,
               tuple(sorted(getattr(dev, 'drop_at', ())) and [1]),
